@@ -23,6 +23,53 @@ type c15Case struct {
 	Name       string `json:"name"`
 	Registered bool   `json:"registered"` // taken from ListSuites
 	Expect     string `json:"expect"`     // generator's intent: wellformed | malformed | any
+	// what the process did with this very text before asking what it means (omitted = nothing): 1 a hand-built configuration
+	// carrying the text as its name but saying something else is used in a derivation; 2 the value a constructor returned for
+	// the text is changed and used; 3 the value a constructor returned for another suite is renamed to the text and used
+	Pre int `json:"pre,omitempty"`
+}
+
+// c15Poison uses suite values that CARRY the name but say something else. What a name means afterwards must still be what
+// the name says: values built by callers are theirs, not definitions.
+func c15Poison(name string, pre int) {
+	if pre == 0 {
+		return
+	}
+	const sec = "GEZDGNBVGY3TQOJQGEZDGNBVGY3TQOJQ"
+	in := otp.OCRAInput{Counter: make([]byte, 8), Challenge: []byte("1234567890123456"), Password: make([]byte, 20), SessionInfo: make([]byte, 16), Timestamp: make([]byte, 8)}
+	other := toLib(ref.OCRACfg{Raw: name, Hash: 1, Digits: 9, C: true, Q: true, P: true, S: true, T: true, QFormat: 1, PHash: 1, TimeStep: 30})
+	use := func(s otp.Suite) {
+		if s == nil {
+			return
+		}
+		code, _ := otp.GenerateOCRA(sec, s, in)
+		otp.ValidateOCRA(sec, code, s, in)
+		_ = s.String()
+		s.Validate()
+	}
+	switch pre {
+	case 1:
+		use(other)
+		use(&other)
+		if s, err := otp.NewSuite(other); err == nil {
+			use(s)
+		}
+	case 2:
+		if s, err := otp.NewRawSuite(name); err == nil {
+			if rs, isRaw := s.(otp.RawSuite); isRaw {
+				rs.SuiteConfig = other
+				use(rs)
+				use(&rs)
+			}
+		}
+	case 3:
+		if s, err := otp.NewRawSuite("OCRA-1:HOTP-SHA1-6:QN08"); err == nil {
+			if rs, isRaw := s.(otp.RawSuite); isRaw {
+				rs.Raw, rs.Digits, rs.IncludeCounter = name, 7, true
+				use(rs)
+			}
+		}
+	}
 }
 
 func sameCfg(got otp.SuiteConfig, rd ref.Reading) string {
@@ -66,6 +113,10 @@ func checkC15(c c15Case) verdict {
 	labels := []string{"class=" + cls.String()}
 	if c.Registered {
 		labels = append(labels, "registered")
+	}
+	if c.Pre != 0 {
+		labels = append(labels, fmt.Sprintf("after-a-namesake=%d", c.Pre))
+		c15Poison(c.Name, c.Pre)
 	}
 	su, err := otp.NewRawSuite(c.Name)
 	known := otp.IsKnownSuite(c.Name)
@@ -142,7 +193,7 @@ func checkC15(c c15Case) verdict {
 }
 
 var c15Reg = newPart("C15", "registered",
-	"complete: every name returned by ListSuites (and ListSuites returns each once): well-formed by the independent name reader, NewRawSuite succeeds, configuration equals the reading (hash, digits, five include flags, challenge format, password hash, time step in {n,60n,3600n} for the unit-less T<n>), String() == name, IsKnownSuite and SuiteConfigFromRaws agree with the list and with NewRawSuite, a code can be generated; every name is a distinct case",
+	"complete: every name returned by ListSuites (and ListSuites returns each once): well-formed by the independent name reader, NewRawSuite succeeds, configuration equals the reading (hash, digits, five include flags, challenge format, password hash, time step in {n,60n,3600n} for the unit-less T<n>), String() == name, IsKnownSuite and SuiteConfigFromRaws agree with the list and with NewRawSuite, a code can be generated; each name also after a namesake was used (a hand-built configuration, a changed or renamed constructor result carrying the name but saying something else, used in a derivation); every name is a distinct case",
 	checkC15)
 
 func TestC15_Registered(t *testing.T) {
@@ -157,7 +208,9 @@ func TestC15_Registered(t *testing.T) {
 	}
 	for i, n := range registeredNames {
 		if ev.Mine(i) {
-			c15Reg.each(t, c15Case{Name: n, Registered: true, Expect: "wellformed"})
+			for pre := 0; pre <= 3; pre++ {
+				c15Reg.each(t, c15Case{Name: n, Registered: true, Expect: "wellformed", Pre: pre})
+			}
 		}
 	}
 	if len(registeredNames) == 0 {
@@ -167,7 +220,7 @@ func TestC15_Registered(t *testing.T) {
 }
 
 var c15Grammar = newPart("C15", "grammar",
-	"complete enumeration of OCRA-1:HOTP-<SHA1|SHA256|SHA512>-<0..11>:[C-]Q<N|A|H><08|10>[-PSHA<1|256|512>][-S|-S064|-S128 (thorough: also S000,S512,S999)][-T<1..59>S|-T<1..59>M|-T<1..48>H]; oracle: independent name reader; a string the library accepts must yield exactly the reading and report itself as its name, rejection is allowed; names not advertised must be unknown to IsKnownSuite / SuiteConfigFromRaws; every string distinct",
+	"complete enumeration of OCRA-1:HOTP-<SHA1|SHA256|SHA512>-<0..11>:[C-]Q<N|A|H><08|10>[-PSHA<1|256|512>][-S|-S064|-S128 (thorough: also S000,S512,S999)][-T<1..59>S|-T<1..59>M|-T<1..48>H]; oracle: independent name reader; a string the library accepts must yield exactly the reading and report itself as its name, rejection is allowed; names not advertised must be unknown to IsKnownSuite / SuiteConfigFromRaws; one string in thirteen is asked about after a namesake (a suite value carrying the string as its name but saying something else) was used in a derivation; every string distinct",
 	checkC15)
 
 func grammarAll(yield func(string)) {
@@ -216,6 +269,9 @@ func TestC15_Grammar(t *testing.T) {
 			return
 		}
 		c := c15Case{Name: s, Registered: reg[s], Expect: "wellformed"}
+		if i%13 == 0 {
+			c.Pre = 1 + (i/13)%3 // one string in thirteen is asked about after a namesake was used
+		}
 		v := c15Grammar.safe(c)
 		if v.Err != nil {
 			c15Grammar.each(t, c)
